@@ -206,13 +206,13 @@ def _finish(i, out, rec, resdir, work):
             sys.stdout.flush(); sys.stderr.flush()
         except Exception:
             pass
-        # kill leaked pool workers of this case (same process group), then leave
+        # kill leaked pool workers of this case (same process group) and leave. SIGKILL for the whole group, this
+        # process included: with SIGTERM ignored here, the worker-handler threads of leaked pools re-populated their
+        # pools between the signal and _exit, and those late workers (born with SIGTERM ignored) outlived the check,
+        # holding its stdout pipe open. The result file is complete by now; the parent judges by it.
         try:
-            signal.signal(signal.SIGTERM, signal.SIG_IGN)
-        except ValueError:      # called from a monitor thread: the group signal ends this process too (the result is written)
-            pass
-        try:
-            os.killpg(os.getpgid(0), signal.SIGTERM)
+            if os.getpgid(0) == os.getpid():      # our own group (setpgid in _child); never the harness's
+                os.killpg(os.getpid(), signal.SIGKILL)
         except OSError:
             pass
         os._exit(0)
